@@ -188,6 +188,7 @@ func (w *world) judgeReserve(p *peerSt, cs *connSt, fault string, out hopOutcome
 			}
 		}
 		w.noteGrant(p, cs, at, true)
+		w.noteConnSet(p)
 		if sequential {
 			if v := w.capViolation(at); v != "" {
 				w.failf("RESERVE by %s granted beyond the caps: %s", cs.name, v)
@@ -307,6 +308,18 @@ type connPre struct {
 	roomOnce        bool // counting a self circuit once
 	roomTwice       bool // conservative
 	dstUsable       bool
+	dstLimitedOnly  bool
+}
+
+func connNames(p *peerSt) string {
+	out := "["
+	for i, c := range p.openConns() {
+		if i > 0 {
+			out += " "
+		}
+		out += c.name
+	}
+	return out + "]"
 }
 
 func (w *world) connectPre(src *peerSt, cs *connSt, dst *peerSt, at time.Time) connPre {
@@ -316,7 +329,7 @@ func (w *world) connectPre(src *peerSt, cs *connSt, dst *peerSt, at time.Time) c
 		acl:       w.aclConnect(src, cs, dst),
 		roomOnce:  w.openCount(src, false) < w.cfg.MaxCirc && w.openCount(dst, false) < w.cfg.MaxCirc,
 		roomTwice: w.openCount(src, true) < w.cfg.MaxCirc && w.openCount(dst, true) < w.cfg.MaxCirc,
-		dstUsable: dst.usableConn() != nil,
+		dstUsable: dst.usableConn() != nil, dstLimitedOnly: dst.limitedOnly(),
 	}
 }
 
@@ -430,6 +443,17 @@ func (w *world) opConnect(src *peerSt, cs *connSt, dst *peerSt, hopFault, spanFa
 		if hopFault == "" && spanFault == "" && !sc.faulty() {
 			if !out.got {
 				w.failf("CONNECT %s -> p%d: no reply at all", cs.name, dst.idx)
+			}
+			if !pre.dstMay && !pre.relayed && pre.acl && pre.roomTwice {
+				// the only condition of the statement that fails is the destination's reservation
+				w.label("connect-refusal-reason-checked")
+				if pre.dstLimitedOnly && dst.tagExcuse {
+					w.label("connset:connect-to-limited-only-former-holder")
+				}
+				if out.status != pbv2.Status_NO_RESERVATION {
+					w.failf("CONNECT %s -> p%d answered %s: the destination holds no reservation (model %+v, open connections %s), the source is direct, the ACL allows it and both have room: want NO_RESERVATION",
+						cs.name, dst.idx, out.status, dst.rs, connNames(dst))
+				}
 			}
 			if pre.dstMust && !pre.relayed && pre.acl && pre.roomTwice && pre.dstUsable && src != dst {
 				w.failf("CONNECT %s -> p%d refused (%s) although the destination holds a live reservation, the source is direct, the ACL allows it and both have room (src %d, dst %d of %d)",
@@ -678,11 +702,39 @@ func (w *world) disconnect(p *peerSt, cs *connSt) {
 		p.rs = rsv{}
 		p.tagExcuse = false
 	case p.usableConn() == nil:
-		// only limited (relayed) connections remain: "disconnected" is a matter of reading
+		// Only limited connections (relayed through another relay) remain: the peer is not
+		// Connected any more (Connectedness is Limited), it has disconnected in the statement's
+		// sense and its reservation is gone: CONNECT to it finds no reservation, its slot does
+		// not count against the caps and it carries no reservation tag.
+		if w.mustLive(p, time.Now()) {
+			w.sawEnd = true
+		}
 		if p.rs.may {
-			w.label("partial-disconnect-limited-left")
-			p.rs.must = false
+			w.label("reservation-ended-by-disconnect")
+			w.label("connset:last-direct-closed-limited-left")
+			if len(p.conns) > 2 {
+				w.label("connset:last-direct-closed-limited-left-3+conns")
+			}
+			w.goneProbe, w.goneProbeN, w.goneIP = p, 3, p.rs.ip
 			p.tagExcuse = true
+		}
+		p.rs = rsv{}
+	default:
+		// a connection closed and a direct one is left: the reservation stays
+		if p.rs.may && tpls[cs.tpl].limited {
+			w.label("connset:limited-closed-direct-left")
+		} else if p.rs.may && len(p.limitedConns()) > 0 {
+			w.label("connset:direct-closed-direct+limited-left")
+		}
+	}
+}
+
+// noteConnSet labels the connection set of a peer that holds a reservation.
+func (w *world) noteConnSet(p *peerSt) {
+	if p.rs.may && p.usableConn() != nil && len(p.limitedConns()) > 0 {
+		w.label("connset:holder-direct+limited")
+		if w.mixedPending == 0 {
+			w.mixedPending = 3
 		}
 	}
 }
